@@ -1,4 +1,4 @@
-// vh is the single harness binary: `vh <driver> [flags]`.
+// vh is the harness binary of the algebra family: `vh <driver> [flags]`.
 package main
 
 import (
@@ -10,10 +10,18 @@ import (
 	"verifharness/internal/core"
 )
 
-type common struct {
-	prop, in, out, groups string
-	seed                  int64
-	tier                  string
+type opts struct {
+	prop, in, out, groups, tier string
+	seed                        int64
+	bindings, max, maxslow      int
+	scalars, codecall           bool
+}
+
+var drivers = map[string]func(o opts, res *core.Result) error{
+	"alg": func(o opts, res *core.Result) error {
+		return alg.Run(alg.Config{Prop: o.prop, In: o.in, Seed: o.seed, Bindings: o.bindings, Max: o.max, MaxSlow: o.maxslow,
+			ScalarsOnly: o.scalars, Groups: o.groups, CodecAll: o.codecall}, res)
+	},
 }
 
 func main() {
@@ -23,43 +31,30 @@ func main() {
 	}
 	drv := os.Args[1]
 	fs := flag.NewFlagSet(drv, flag.ExitOnError)
-	var c common
-	fs.StringVar(&c.prop, "prop", "", "property id")
-	fs.StringVar(&c.in, "in", "", "input (behaviours ndjson)")
-	fs.StringVar(&c.out, "out", "", "result json")
-	fs.StringVar(&c.groups, "groups", "", "group filter")
-	fs.Int64Var(&c.seed, "seed", 1, "seed")
-	fs.StringVar(&c.tier, "tier", "quick", "tier")
-	bindings := fs.Int("bindings", 3, "bindings per group")
-	max := fs.Int("max", 0, "behaviours per (group,binding)")
-	maxslow := fs.Int("maxslow", 0, "same for slow groups")
-	scalars := fs.Bool("scalars", false, "one group per scalar implementation")
-	codecall := fs.Bool("codecall", false, "cycle codec paths over bindings")
+	var o opts
+	fs.StringVar(&o.prop, "prop", "", "property id")
+	fs.StringVar(&o.in, "in", "", "input (behaviours ndjson)")
+	fs.StringVar(&o.out, "out", "", "result json")
+	fs.StringVar(&o.groups, "groups", "", "group filter")
+	fs.Int64Var(&o.seed, "seed", 1, "seed")
+	fs.StringVar(&o.tier, "tier", "quick", "tier")
+	fs.IntVar(&o.bindings, "bindings", 3, "bindings per group")
+	fs.IntVar(&o.max, "max", 0, "behaviours per (group,binding)")
+	fs.IntVar(&o.maxslow, "maxslow", 0, "same for slow groups")
+	fs.BoolVar(&o.scalars, "scalars", false, "one group per scalar implementation")
+	fs.BoolVar(&o.codecall, "codecall", false, "cycle codec paths over bindings")
 	_ = fs.Parse(os.Args[2:])
-	res := core.NewResult(c.prop)
-	var err error
-	switch drv {
-	case "alg":
-		err = alg.Run(alg.Config{Prop: c.prop, In: c.in, Seed: c.seed, Bindings: *bindings, Max: *max, MaxSlow: *maxslow,
-			ScalarsOnly: *scalars, Groups: c.groups, CodecAll: *codecall}, res)
-	case "pairing":
-		err = alg.RunPairing(alg.Config{Prop: c.prop, In: c.in, Seed: c.seed, Bindings: *bindings, Max: *max}, res)
-	case "pickembed":
-		pc := alg.Config{Prop: c.prop, In: c.in, Seed: c.seed, Max: *max, MaxSlow: *maxslow, Groups: c.groups}
-		err = alg.RunPickEmbed(pc, res)
-		if err == nil && c.groups == "" {
-			alg.DataRange(pc, res, 400)
-		}
-	case "h2c":
-		err = alg.RunH2C(alg.Config{Prop: c.prop, Seed: c.seed}, res)
-	default:
-		err = fmt.Errorf("unknown driver %q", drv)
+	res := core.NewResult(o.prop)
+	f, ok := drivers[drv]
+	if !ok {
+		fmt.Fprintf(os.Stderr, "vh: unknown driver %q\n", drv)
+		os.Exit(2)
 	}
-	if err != nil {
+	if err := f(o, res); err != nil {
 		fmt.Fprintln(os.Stderr, "vh:", err)
 		os.Exit(2)
 	}
-	if err := res.Write(c.out); err != nil {
+	if err := res.Write(o.out); err != nil {
 		fmt.Fprintln(os.Stderr, "vh:", err)
 		os.Exit(2)
 	}
